@@ -25,16 +25,20 @@ SHARD = 250
 IMPL_TIMEOUT = 2400
 COQ_TIMEOUT = 1500
 
-RULE = ("aut: labelled graphs (all isomorphism classes up to 4 nodes over {C,O}x{hcount 0,1}x{single,double}, all classes on 5 nodes "
-        "over {C,O}x{single}, random connected/disconnected graphs up to 9 nodes, symmetric families, relabelled / re-inserted copies); "
+RULE = ("aut: labelled graphs (all isomorphism classes up to 3 nodes over {C,O}x{hcount 0,1}x{single,double}; 4 nodes: all 705 classes over "
+        "{C,O}x{single,double} [the labels the exact analysis sees] plus, quick: a seeded sample of 1500 / thorough: all 9291 classes with "
+        "hcount labels; all classes on 5 nodes over {C,O}x{single}; random connected/disconnected graphs up to 9 nodes; symmetric families; "
+        "relabelled / re-inserted copies); "
         "dedup: match lists from SubgraphSearchEngine on random hosts (plus partial, shuffled, duplicated lists) under 8 orbit/anchor "
         "configurations; prune: (template, substrate, direction, mode) applications with pruning on versus every raw match. "
         "Non-trivial: aut = at least 2 nodes and a non-identity automorphism or a WL class of size >= 2; dedup = some configuration "
         "drops a match; prune = at least 2 raw matches. distinct = distinct case dictionaries")
 EXHAUSTIVE = {"quick": True, "thorough": True}
-EXPLANATION = ("Exhaustive sub-space (both tiers): every labelled graph up to isomorphism on <=4 nodes over node labels {C,O}x{hcount 0,1} and "
-               "edge labels {single,double} (9689 graphs) and on 5 nodes over {C,O}x{single} - exact count, orbits, components, anchor and the "
-               "WL-1 colours after 0,1,2,10 rounds are compared with the model and with brute force.  Everything else is seeded random / "
+EXPLANATION = ("Exhaustive sub-space (both tiers): every labelled graph up to isomorphism on <=3 nodes over node labels {C,O}x{hcount 0,1} and "
+               "edge labels {single,double} (398 graphs), on 4 nodes over {C,O}x{single,double} (705; thorough: also all 9291 classes with "
+               "hcount labels, quick: a seeded sample of 1500 of them) and on 5 nodes over {C,O}x{single} - exact count, orbits, components, "
+               "anchor, the VF2 enumerations and the WL-1 colours after 0,1,2,10 rounds are compared with the model and with brute force.  "
+               "Everything else is seeded random / "
                "corpus sampling.  Theorems (coq/props/C11.v, all closed under the global context): C11_aut_count, C11_aut_group, "
                "C11_vf2_contract, C11_vf2_contract_items, C11_orbits_exact, C11_orbits_partition, C11_components, C11_wl_never_splits, C11_wfb_sound, "
                "C11_dedup_sublist, C11_prune_complete, C11_rep_ok, C11_prune_complete_aut, C11_prune_same_results.")
